@@ -127,3 +127,50 @@ pub fn sparse_scalar(p: &mut Prng, mask: u64) -> BigUint {
         v
     }
 }
+
+/// All 81 limb-wise comparison patterns against `m`: limb i of the value is equal to, below or above limb i of `m`
+/// (pattern string lists limbs 3..0). A comparison ladder that slips one limb index is wrong only for values whose
+/// upper limbs EQUAL those of the modulus, which random values never do.
+pub fn ladder_values(m: &BigUint, p: &mut Prng) -> Vec<(String, BigUint)> {
+    let ml = r9::to_limbs(m);
+    let mut out = vec![];
+    for code in 0..81u32 {
+        let mut v = [0u64; 4];
+        let mut pat = String::new();
+        let mut ok = true;
+        let mut c = code;
+        let mut rel = [0u32; 4];
+        for i in 0..4 {
+            rel[i] = c % 3;
+            c /= 3;
+        }
+        for i in (0..4).rev() {
+            match rel[i] {
+                0 => {
+                    v[i] = ml[i];
+                    pat.push('=');
+                }
+                1 => {
+                    if ml[i] == 0 {
+                        ok = false;
+                        break;
+                    }
+                    v[i] = ml[i] - 1 - p.below(ml[i]);
+                    pat.push('<');
+                }
+                _ => {
+                    if ml[i] == u64::MAX {
+                        ok = false;
+                        break;
+                    }
+                    v[i] = ml[i] + 1 + p.below(u64::MAX - ml[i]);
+                    pat.push('>');
+                }
+            }
+        }
+        if ok {
+            out.push((pat, r9::from_limbs(&v)));
+        }
+    }
+    out
+}
